@@ -22,6 +22,9 @@ OPT_NOTE = ("optimiser model (coq/model/Optimiser.v) replayed bit-for-bit agains
 CLI_TRUST = ("bin/gen.py parse_main: translator of analyse_state in src/main.rs into coq/gen/GenCli.v (stage setter lists, replica "
              "range, reduction), re-run on every check; model/Cli.v gives the setters their meaning")
 
+FNS_TRUST = ("bin/rs2coq.py + the tables in bin/gen.py (FNS): translator of the crate's numeric formulas from the source text into "
+             "coq/gen/GenFns.v, re-run on every check; proofs/SourceFacts.v proves each equal to the hand-written model's definition")
+
 PROPS = {
     "C09": dict(props_file="props/C09.v", engines=[("cli", dict(quick=4, thorough=60)), ("opt", dict(focus="C09", quick=160, thorough=4000)),
                                                       ("geom", dict(quick=[("ORD", 3000)], thorough=[("ORD", 150000)]))],
@@ -34,23 +37,23 @@ PROPS = {
     "C08": dict(props_file="props/C08.v", needs_gen=True,
                 engines=[("opt", dict(focus="C08", quick=150, thorough=3000, coqeval_quick=4, coqeval_thorough=30)),
                          ("geom", dict(quick=[("C08", 1200)], thorough=[("C08", 40000)]))],
-                design="DESIGN.md section 4 C08",
+                design="DESIGN.md section 4 C08", trusted=[FNS_TRUST],
                 assumptions=["no sampled value is NaN (premise of the binary64 range theorem; monitored on every recorded proposal)"]),
     "C02": dict(props_file="props/C02.v", engines=[("geom", dict(quick=[("C02", 8000), ("ORD", 1500)], thorough=[("C02", 400000), ("ORD", 60000)], coqeval_thorough=400))],
-                design="DESIGN.md section 4 C02"),
+                design="DESIGN.md section 4 C02", trusted=[FNS_TRUST]),
     "C03": dict(props_file="props/C03.v", engines=[("geom", dict(quick=[("C03", 8000)], thorough=[("C03", 400000)]))],
-                design="DESIGN.md section 4 C03"),
+                design="DESIGN.md section 4 C03", trusted=[FNS_TRUST]),
     "C13": dict(props_file="props/C13.v", engines=[("geom", dict(quick=[("C13", 20000)], thorough=[("C13", 2000000)], coqeval_quick=40, coqeval_thorough=600))],
-                design="DESIGN.md section 4 C13"),
+                design="DESIGN.md section 4 C13", trusted=[FNS_TRUST]),
     "C01": dict(props_file="props/C01.v", engines=[("geom", dict(quick=[("C01", 20000)], thorough=[("C01", 1500000), ("C01a", 300000)], coqeval_quick=24, coqeval_thorough=400))],
-                design="DESIGN.md section 4 C01"),
+                design="DESIGN.md section 4 C01", trusted=[FNS_TRUST]),
     "C12": dict(props_file="props/C12.v", engines=[("geom", dict(quick=[("C12", 30000)], thorough=[("C12", 2000000)], coqeval_quick=40, coqeval_thorough=600))],
-                design="DESIGN.md section 4 C12"),
+                design="DESIGN.md section 4 C12", trusted=[FNS_TRUST]),
     "C04": dict(props_file="props/C04.v", needs_gen=True,
                 engines=[("geom", dict(quick=[("C04", 4000)], thorough=[("C04", 200000)])), ("tables", dict(groups=True))],
                 design="DESIGN.md section 4 C04"),
     "C14": dict(props_file="props/C14.v", engines=[("geom", dict(quick=[("C14", 4000)], thorough=[("C14", 200000)], coqeval_quick=24, coqeval_thorough=400))],
-                design="DESIGN.md section 4 C14"),
+                design="DESIGN.md section 4 C14", trusted=[FNS_TRUST]),
     "C15": dict(props_file="props/C15.v", engines=[("geom", dict(quick=[("C15", 4000)], thorough=[("C15", 200000)], coqeval_quick=24, coqeval_thorough=400))],
                 design="DESIGN.md section 4 C15"),
     "C17": dict(props_file="props/C17.v", engines=[("parse", dict(grammar_quick=1500, grammar_thorough=20000,
@@ -64,15 +67,15 @@ PROPS = {
                 design="DESIGN.md section 4 C05",
                 assumptions=["libm: exp(-inf) = 0 (premise of the binary64 theorems; tested by the harness on every run)",
                              "thresholds drawn by rand's gen::<f64>() are >= 0"],
-                trusted=[CLI_TRUST]),
+                trusted=[FNS_TRUST, CLI_TRUST]),
     "C06": dict(props_file="props/C06.v", engines=[("opt", dict(focus="C06", quick=250, thorough=6000, coqeval_quick=8, coqeval_thorough=60))],
                 design="DESIGN.md section 4 C06"),
     "C07": dict(props_file="props/C07.v", engines=[("opt", dict(focus="C07", quick=250, thorough=6000, coqeval_quick=6, coqeval_thorough=40))],
-                design="DESIGN.md section 4 C07"),
+                design="DESIGN.md section 4 C07", trusted=[FNS_TRUST]),
     "C18": dict(props_file="props/C18.v", engines=[("opt", dict(focus="C18", quick=250, thorough=6000, coqeval_quick=6, coqeval_thorough=40))],
-                design="DESIGN.md section 4 C18", trusted=[CLI_TRUST]),
+                design="DESIGN.md section 4 C18", trusted=[FNS_TRUST, CLI_TRUST]),
     "C19": dict(props_file="props/C19.v", engines=[("opt", dict(focus="C19", quick=250, thorough=6000, coqeval_quick=6, coqeval_thorough=40)), ("cli", dict(quick=0, thorough=2, step_probe=True))],
-                design="DESIGN.md section 4 C19", trusted=[CLI_TRUST]),
+                design="DESIGN.md section 4 C19", trusted=[FNS_TRUST, CLI_TRUST]),
     "C20": dict(props_file="props/C20.v", engines=[("opt", dict(focus="C20", quick=250, thorough=6000, coqeval_quick=6, coqeval_thorough=40)), ("cli", dict(quick=2, thorough=30))],
                 design="DESIGN.md section 4 C20", trusted=[CLI_TRUST]),
 }
